@@ -63,6 +63,9 @@ type TxnResult struct {
 	// LookupAfterDup: an operation selected rows through conditions that cover a schema
 	// index on which a transient duplicate existed earlier in the same transaction.
 	LookupAfterDup bool `json:"lookupAfterTransientDuplicate,omitempty"`
+	// NegativeZero: a real mutation produced -0.0 (outside the generated domain: JSON and
+	// Go's gob, used for multi-column index values, distinguish it from 0.0; OVSDB does not).
+	NegativeZero bool `json:"negativeZero,omitempty"`
 }
 
 // Exec runs a transaction against state st (which is not modified). assigned
@@ -352,6 +355,11 @@ func Exec(s kit.Schema, st kit.State, ops []kit.Op, assigned func(i int) string)
 				for _, m := range muts {
 					col := t.Col(m.Col)
 					nv, class, may := ApplyMutation(*col, work[t.Name][u][m.Col], m)
+					for _, a := range nv.K {
+						if a.T == kit.TReal && a.R == 0 && math.Signbit(a.R) {
+							res.NegativeZero = true
+						}
+					}
 					if class != "" {
 						return fail(i, class, fmt.Sprintf("mutation %s %s", m.Col, m.Mutator))
 					}
@@ -864,51 +872,186 @@ func Commit(s kit.Schema, pre, work kit.State) (post kit.State, gcDeleted, weakP
 	// a default all-zero uuid in a scalar reference column is a reference like any other
 	// 1. garbage collection to a fixpoint
 	danglingFromGarbage := false
-	for {
-		referenced := map[string]map[string]bool{} // table -> uuid
+	type garbageRow struct {
+		table, uuid string
+		row         kit.Row
+	}
+	var garbage []garbageRow
+	prunedRows := map[string]bool{}
+	prunedThenCollected := false
+	gcFixpoint := func() bool {
+		any := false
+		for {
+			referenced := map[string]map[string]bool{} // table -> uuid
+			for ti := range s.Tables {
+				t := &s.Tables[ti]
+				for _, site := range refSites(t) {
+					if site.ref.Weak {
+						continue
+					}
+					for _, row := range post[t.Name] {
+						for _, to := range siteTargets(site, row) {
+							if referenced[site.ref.Table] == nil {
+								referenced[site.ref.Table] = map[string]bool{}
+							}
+							referenced[site.ref.Table][to] = true
+						}
+					}
+				}
+			}
+			changed := false
+			for _, t := range s.Tables {
+				if s.IsRoot(t.Name) {
+					continue
+				}
+				for _, u := range kit.SortedUUIDs(post[t.Name]) {
+					if !referenced[t.Name][u] {
+						// does the garbage row hold a dangling strong reference?
+						tt := s.Table(t.Name)
+						for _, site := range refSites(tt) {
+							if site.ref.Weak {
+								continue
+							}
+							for _, to := range siteTargets(site, post[t.Name][u]) {
+								if _, ok := post[site.ref.Table][to]; !ok {
+									danglingFromGarbage = true
+								}
+							}
+						}
+						garbage = append(garbage, garbageRow{t.Name, u, post[t.Name][u]})
+						if prunedRows[t.Name+"/"+u] {
+							prunedThenCollected = true
+						}
+						delete(post[t.Name], u)
+						gcDeleted++
+						changed = true
+					}
+				}
+			}
+			if !changed {
+				break
+			}
+			any = true
+		}
+		return any
+	}
+	// 3. weak references to missing rows are dropped; dropping a pair of a map may drop a
+	// strong reference too, so collect garbage and prune until nothing changes
+	pruneWeak := func() bool {
+		any := false
+		for ti := range s.Tables {
+			t := &s.Tables[ti]
+			for ci := range t.Cols {
+				c := &t.Cols[ci]
+				keyWeak := c.Key.T == kit.TUUID && c.Key.Ref != nil && c.Key.Ref.Weak && c.Key.Ref.Table != ""
+				valWeak := c.Value != nil && c.Value.T == kit.TUUID && c.Value.Ref != nil && c.Value.Ref.Weak && c.Value.Ref.Table != ""
+				if !keyWeak && !valWeak {
+					continue
+				}
+				for _, u := range kit.SortedUUIDs(post[t.Name]) {
+					v := post[t.Name][u][c.Name]
+					nv := kit.Val{M: v.M, K: []kit.Atom{}}
+					if v.M {
+						nv.V = []kit.Atom{}
+					}
+					for i, k := range v.K {
+						drop := false
+						if keyWeak {
+							if _, ok := post[c.Key.Ref.Table][k.S]; !ok {
+								drop = true
+							}
+						}
+						if valWeak {
+							if _, ok := post[c.Value.Ref.Table][v.V[i].S]; !ok {
+								drop = true
+							}
+						}
+						if drop {
+							weakPruned++
+							continue
+						}
+						nv.K = append(nv.K, k)
+						if v.M {
+							nv.V = append(nv.V, v.V[i])
+						}
+					}
+					if len(nv.K) != len(v.K) {
+						if len(nv.K) < c.Min {
+							addCause(ErrConstraint, fmt.Sprintf("weak reference pruning leaves %s.%s of %s with %d < %d elements", t.Name, c.Name, u, len(nv.K), c.Min))
+						}
+						post[t.Name][u][c.Name] = nv
+						prunedRows[t.Name+"/"+u] = true
+						any = true
+					}
+				}
+			}
+		}
+		return any
+	}
+	danglingStrong := func() string {
 		for ti := range s.Tables {
 			t := &s.Tables[ti]
 			for _, site := range refSites(t) {
 				if site.ref.Weak {
 					continue
 				}
-				for _, row := range post[t.Name] {
-					for _, to := range siteTargets(site, row) {
-						if referenced[site.ref.Table] == nil {
-							referenced[site.ref.Table] = map[string]bool{}
+				for _, u := range kit.SortedUUIDs(post[t.Name]) {
+					for _, to := range siteTargets(site, post[t.Name][u]) {
+						if _, ok := post[site.ref.Table][to]; !ok {
+							return fmt.Sprintf("%s.%s of %s -> %s", t.Name, site.col.Name, u, to)
 						}
-						referenced[site.ref.Table][to] = true
 					}
 				}
 			}
 		}
-		changed := false
-		for _, t := range s.Tables {
-			if s.IsRoot(t.Name) {
+		return ""
+	}
+	danglingBeforePruning := false
+	for round := 0; ; round++ {
+		g := gcFixpoint()
+		if danglingStrong() != "" {
+			// a strong reference that disappears only because its map pair is pruned for a
+			// dangling weak reference: RFC 7047 does not order the two rules
+			danglingBeforePruning = true
+		}
+		p := pruneWeak()
+		if !g && !p {
+			break
+		}
+	}
+	// garbage rows whose weak references would fall under the column minimum: RFC 7047
+	// deletes the row, the implementation may look at it before it is collected
+	weakFromGarbage := false
+	for _, g := range garbage {
+		t := s.Table(g.table)
+		for ci := range t.Cols {
+			c := &t.Cols[ci]
+			keyWeak := c.Key.T == kit.TUUID && c.Key.Ref != nil && c.Key.Ref.Weak && c.Key.Ref.Table != ""
+			valWeak := c.Value != nil && c.Value.T == kit.TUUID && c.Value.Ref != nil && c.Value.Ref.Weak && c.Value.Ref.Table != ""
+			if !keyWeak && !valWeak {
 				continue
 			}
-			for _, u := range kit.SortedUUIDs(post[t.Name]) {
-				if !referenced[t.Name][u] {
-					// does the garbage row hold a dangling strong reference?
-					tt := s.Table(t.Name)
-					for _, site := range refSites(tt) {
-						if site.ref.Weak {
-							continue
-						}
-						for _, to := range siteTargets(site, post[t.Name][u]) {
-							if _, ok := post[site.ref.Table][to]; !ok {
-								danglingFromGarbage = true
-							}
-						}
+			v := g.row[c.Name]
+			left := 0
+			for i, k := range v.K {
+				ok := true
+				if keyWeak {
+					if _, e := post[c.Key.Ref.Table][k.S]; !e {
+						ok = false
 					}
-					delete(post[t.Name], u)
-					gcDeleted++
-					changed = true
+				}
+				if valWeak {
+					if _, e := post[c.Value.Ref.Table][v.V[i].S]; !e {
+						ok = false
+					}
+				}
+				if ok {
+					left++
 				}
 			}
-		}
-		if !changed {
-			break
+			if left < c.Min && left != len(v.K) {
+				weakFromGarbage = true
+			}
 		}
 	}
 	// 2. strong references must resolve
@@ -923,52 +1066,6 @@ func Commit(s kit.Schema, pre, work kit.State) (post kit.State, gcDeleted, weakP
 					if _, ok := post[site.ref.Table][to]; !ok {
 						addCause(ErrRefIntegity, fmt.Sprintf("%s.%s of %s -> %s", t.Name, site.col.Name, u, to))
 					}
-				}
-			}
-		}
-	}
-	// 3. weak references to missing rows are dropped
-	for ti := range s.Tables {
-		t := &s.Tables[ti]
-		for ci := range t.Cols {
-			c := &t.Cols[ci]
-			keyWeak := c.Key.T == kit.TUUID && c.Key.Ref != nil && c.Key.Ref.Weak && c.Key.Ref.Table != ""
-			valWeak := c.Value != nil && c.Value.T == kit.TUUID && c.Value.Ref != nil && c.Value.Ref.Weak && c.Value.Ref.Table != ""
-			if !keyWeak && !valWeak {
-				continue
-			}
-			for _, u := range kit.SortedUUIDs(post[t.Name]) {
-				v := post[t.Name][u][c.Name]
-				nv := kit.Val{M: v.M, K: []kit.Atom{}}
-				if v.M {
-					nv.V = []kit.Atom{}
-				}
-				for i, k := range v.K {
-					drop := false
-					if keyWeak {
-						if _, ok := post[c.Key.Ref.Table][k.S]; !ok {
-							drop = true
-						}
-					}
-					if valWeak {
-						if _, ok := post[c.Value.Ref.Table][v.V[i].S]; !ok {
-							drop = true
-						}
-					}
-					if drop {
-						weakPruned++
-						continue
-					}
-					nv.K = append(nv.K, k)
-					if v.M {
-						nv.V = append(nv.V, v.V[i])
-					}
-				}
-				if len(nv.K) != len(v.K) {
-					if len(nv.K) < c.Min {
-						addCause(ErrConstraint, fmt.Sprintf("weak reference pruning leaves %s.%s of %s with %d < %d elements", t.Name, c.Name, u, len(nv.K), c.Min))
-					}
-					post[t.Name][u][c.Name] = nv
 				}
 			}
 		}
@@ -993,8 +1090,22 @@ func Commit(s kit.Schema, pre, work kit.State) (post kit.State, gcDeleted, weakP
 		if danglingFromGarbage {
 			addCause(ErrRefIntegity, "dangling reference held by a garbage row")
 		}
+		if weakFromGarbage {
+			addCause(ErrConstraint, "weak reference minimum violated in a garbage row")
+		}
+		if danglingBeforePruning {
+			addCause(ErrRefIntegity, "dangling strong reference in a pair pruned for its weak reference")
+		}
+
 		return nil, gcDeleted, weakPruned, causes, detail, ""
 	}
+	if weakFromGarbage {
+		mayReject = "commit:weak-minimum-violated-in-garbage-row"
+	}
+	if danglingBeforePruning {
+		mayReject = "commit:dangling-strong-reference-in-weak-pruned-pair"
+	}
+	_ = prunedThenCollected // formerly a tolerance for a defect that has been repaired (gc-after-weak-prune)
 	if danglingFromGarbage {
 		mayReject = "commit:dangling-reference-held-by-garbage-row"
 	}
